@@ -234,6 +234,12 @@ Theorem C10_invoker_quiet_after_close : forall c ops s, tidy s ->
 Proof. exact inv_quiet_after_close. Qed.
 Print Assumptions C10_invoker_quiet_after_close.
 
+(* orderly close of the invoker: the first close() of a not yet closed invoker runs on_close in that very call - started or
+   not, running or not - and a failed on_start closes the agent in the same call *)
+Theorem C10_invoker_close_runs_on_close : forall c w ops, holds_inv_close ops (inv_obs c w ops) = true.
+Proof. exact holds_inv_close_model. Qed.
+Print Assumptions C10_invoker_close_runs_on_close.
+
 Theorem C10_invoker_oracle_model : forall c w ops, holds_inv ops (inv_obs c w ops) = true.
 Proof. exact holds_inv_model. Qed.
 Print Assumptions C10_invoker_oracle_model.
